@@ -54,7 +54,7 @@ _counter = [0]
 
 def fresh_dir(root, prefix):
     _counter[0] += 1
-    d = os.path.join(root, f"{prefix}-{os.getpid()}-{_counter[0]}")
+    d = os.path.join(root, f"{prefix}-{os.getpid():08d}-{_counter[0] % 1000000:06d}")
     if os.path.exists(d):
         shutil.rmtree(d, ignore_errors=True)
     os.makedirs(d)
